@@ -34,6 +34,18 @@ def anchor_names():
     return _anchors
 
 
+_rules_src = None
+
+
+def named_by_rules(name):
+    """The identifier occurs in some rule (as an attribute, in a qualified name or in a string)."""
+    global _rules_src
+    if _rules_src is None:
+        here = os.path.dirname(os.path.dirname(os.path.abspath(__file__)))
+        _rules_src = "\n".join(open(p, encoding="utf-8").read() for p in glob.glob(os.path.join(here, "rules", "*.py")))
+    return re.search(r"[.\"'`{ (]" + re.escape(name) + r"\b", _rules_src) is not None
+
+
 class NotInlinable(Exception):
     pass
 
